@@ -69,6 +69,19 @@ CLAIMED = {
    technique="CrossHair symbolic execution (z3) of the real query/generate_candidate_set/__getitem__ per enumerated alias pattern; symbolic execution of Numba typed IR + z3 for the 'mutators grow n_added or change nothing' lemma",
    text="Per stored-key alias pattern (distinct, same key in two rows, NUL-padded alias, empty key, all-NUL key, empty cell) with both counts and the threshold over all of uint32 and k in 1..3: at most k pairs, distinct keys, non-increasing counts, each count == hh[key] >= threshold, counts are a prefix of the unbounded answer, every stored key with hh[key] >= max(threshold,1) present. Freshness: lemma A (second query after any threshold pair, explicit or default, with or without growth, equals a cache-free sketch's answer), lemma B (kernels: an add/merge either strictly increases n_added or leaves the tables alone; counts <= n_added is invariant), lemma C (load rebuilds the cache, in C10).",
    note="Width 1 / depth 2 / max_key_len 2 only (scan loops uniform); Counter.most_common trusted; thresholds >= 2^32 and n_added wrap-around outside."),
+
+ "C16": dict(engine=W, category="model_checking", design="6 C16",
+   technique="CrossHair symbolic execution (z3) of the real __init__(shared_memory=True)/attach_existing_shm/attach_shared_memory/__del__ with a recording SharedMemory stand-in; symbolic width",
+   text="Decidable part only: for all five classes with symbolic width (to 10^5), enumerated depth/max_key_len and symbolic other parameters, the byte ranges and dtypes viewed by the owner, by attach_existing_shm and by helpers.attach_shared_memory are identical, tile the block without overlap and end at its size; the bookkeeping view has 2 entries; writes through one handle are read through the other; a sketch rebuilt from owner.args has the owner's parameters (a truncated seed in .args is caught); the owner's __del__ closes and unlinks, a view's only closes. Counterexamples are replayed with real shared memory: owner, attached view and an in-memory twin under interleaved operations, then deletion orders.",
+   note="The operating system's shared memory, cross-process visibility and /dev/shm are outside; given identical views of one buffer, behavioural equality is inherited from the kernels being functions of the arrays."),
+ "C08": dict(engine=W, category="model_checking", design="6 C08",
+   technique="CrossHair symbolic execution (z3) of the real helpers glue under a synchronous 'spawn' context with a symbolic item-to-worker assignment and pickled Process arguments",
+   text="Real _fill_queue, _worker, _merge_worker, parallel_merging, parallel_add: for 1..3 workers (4 thorough; parallel_merging alone 1..9) and every assignment of the items to workers (symbolic), symbolic callback returns, and all three sketch kinds together: every item reaches the callback exactly once, its adds land in the assigned worker's block, every worker's block of every kind is merged exactly once into the returned sketch (odd carry included), n_records is the sum of returns, one pill per worker. With the merge lemmas of C01/C02/C03/C04/C09 this gives the sequential result. The 'items may be a generator' clause is a recorded known finding (F2).",
+   note="Assumes mp.Queue's exactly-once delivery and that the fake context's scheduling covers the real one's observable orders; OS scheduling, real spawn and cross-process memory coherence are outside (the replays do run real spawned processes)."),
+ "C19": dict(engine=W, category="model_checking", design="6 C19",
+   technique="CrossHair symbolic execution (z3) of the real _worker loop and parallel_add monitor under the synchronous context with symbolic per-item failure flags and a symbolic exit code",
+   text="Per item a symbolic flag (callback fine / raises before touching the sketches / raises after updating them, incl. exceptions without arguments): parallel_add still terminates, every item is offered once, all non-failing items' contributions are in the result and n_records counts only successful items. A worker with any non-zero exit status (-15..255, symbolic) makes parallel_add end with an exception instead of returning. Counterexamples replayed with real spawned processes (raising callbacks; a worker that os._exit()s / kills itself).",
+   note="Real signals, OOM kills and wall-clock hang detection are outside; the dead-worker guarantee in the pinned code is incidental (a later put on a closed queue raises) and is accepted as 'terminates with an exception'."),
 }
 NA = {}
 ALL = sorted(TITLES)
